@@ -717,23 +717,34 @@ pub fn space() -> Vec<HeadSpec> {
                 counts.insert(0, m - 1);
             }
             for n in counts {
-                let fields: Vec<FieldSpec> = (0..n)
-                    .map(|i| {
-                        let name = if same_name { "D".to_string() } else { format!("N{}", i % 37) };
-                        fld(&name, 1, format!("v{i}").as_bytes(), 0)
-                    })
-                    .collect();
-                v.push(HeadSpec {
-                    group: "count".into(),
-                    version: "HTTP/1.1".into(),
-                    code: 200,
-                    reason: Reason::Text(b"OK".to_vec()),
-                    fields,
-                    body: b"xyz".to_vec(),
-                    max_headers: Some(m),
-                    reject: n > m,
-                    head_method: false,
-                });
+                // folded: the first field (not the last one) has continuation lines - they are part
+                // of its value, not fields of their own
+                for folded in [false, true] {
+                    if folded && n < 2 {
+                        continue;
+                    }
+                    let fields: Vec<FieldSpec> = (0..n)
+                        .map(|i| {
+                            let name = if same_name { "D".to_string() } else { format!("N{}", i % 37) };
+                            if folded && i == 0 {
+                                fld(&name, 1, b"v0\n w\n  x", 0)
+                            } else {
+                                fld(&name, 1, format!("v{i}").as_bytes(), 0)
+                            }
+                        })
+                        .collect();
+                    v.push(HeadSpec {
+                        group: "count".into(),
+                        version: "HTTP/1.1".into(),
+                        code: 200,
+                        reason: Reason::Text(b"OK".to_vec()),
+                        fields,
+                        body: b"xyz".to_vec(),
+                        max_headers: Some(m),
+                        reject: n > m,
+                        head_method: false,
+                    });
+                }
             }
         }
     }
@@ -876,6 +887,28 @@ pub fn space() -> Vec<HeadSpec> {
             head_method: false,
         });
     }
+    // (H) a Connection field that names other fields of the same head: only Transfer-Encoding is hidden
+    let conn_lists: Vec<Vec<FieldSpec>> = vec![
+        vec![fld("Connection", 1, b"keep-alive", 0), fld("Keep-Alive", 1, b"timeout=5, max=100", 0)],
+        vec![fld("Keep-Alive", 1, b"timeout=5", 0), fld("Connection", 1, b"Keep-Alive", 0), fld("X-A", 1, b"1", 0)],
+        vec![fld("Connection", 1, b"Upgrade", 0), fld("Upgrade", 1, b"h2c", 0)],
+        vec![fld("X-Foo", 1, b"bar", 0), fld("Connection", 1, b"close, x-foo", 0), fld("x-foo", 1, b"baz", 0)],
+        vec![fld("Connection", 1, b"x-foo", 0), fld("Connection", 1, b"content-type", 0), fld("Content-Type", 1, b"text/plain", 0), fld("X-Foo", 1, b"1", 0)],
+        vec![fld("Connection", 1, b"connection", 0), fld("Date", 1, b"today", 0)],
+    ];
+    for fields in conn_lists {
+        v.push(HeadSpec {
+            group: "te".into(),
+            version: "HTTP/1.1".into(),
+            code: 200,
+            reason: Reason::Text(b"OK".to_vec()),
+            fields,
+            body: b"xyz".to_vec(),
+            max_headers: None,
+            reject: false,
+            head_method: false,
+        });
+    }
     // (B) all lists of length 3
     for a in &menu {
         for b in &menu {
@@ -909,6 +942,23 @@ pub fn space() -> Vec<HeadSpec> {
             },
             fld("x-pre", 1, b"q", 0),
         ]));
+    }
+    // field lines of exactly 16383 and 16384 bytes (CRLF included; the line limit is 16 KiB): accepted
+    for len in [16374usize, 16375] {
+        for lf in [false, true] {
+            v.push(size_spec(vec![
+                fld("X-Pre", 1, b"p", 0),
+                FieldSpec {
+                    name: "X-Big".into(),
+                    pre: 1,
+                    val: ValSpec::Pattern { len, shift: 3, lf },
+                    post: 0,
+                    pre_raw: None,
+                    post_raw: None,
+                },
+                fld("X-Post", 1, b"q", 0),
+            ]));
+        }
     }
     // 60 field lines of exactly 200 bytes, 20 distinct names (three values each)
     let fields: Vec<FieldSpec> = (0..60usize)
